@@ -29,6 +29,35 @@ std::vector<uint8_t> make_data(const Json &spec)
                 n = 8u << 20;
         uint64_t p = (uint64_t) spec.geti("p");
         Rng r((uint64_t) spec.geti("s"), "data");
+        if (kind == DK_ADLERMAX) {
+                // Worst case for a blocked Adler-32: the running A sum just below 65521 when a final stretch of 5552 + t bytes of 0xFF
+                // begins (t = 0..16), the total length a multiple of 5552 plus t.  Any kernel that lets its last block grow, or reduces
+                // too late, overflows here and nowhere else.
+                uint64_t m = n / 5552, t = p % 17;
+                if (m < 2)
+                        m = 2;
+                if (m > 12)
+                        m = 12;
+                n = 5552 * m + t;
+                std::vector<uint8_t> d(n);
+                uint64_t pre = 5552 * (m - 1);
+                uint64_t sum = 1;
+                for (uint64_t i = 0; i + 300 < pre; i++) {
+                        d[i] = (uint8_t) r.u64();
+                        sum += d[i];
+                }
+                uint64_t target = 65520 - r.below(r.chance(1, 2) ? 40 : 4000);
+                uint64_t need = (target + 65521 * 2 - sum % 65521) % 65521; // what the last 300 bytes of the prefix must add (mod 65521)
+                for (uint64_t i = pre - 300; i < pre; i++) {
+                        uint64_t left = pre - i;
+                        uint64_t v = std::min<uint64_t>(255, (need + left - 1) / left);
+                        d[i] = (uint8_t) v;
+                        need -= v;
+                }
+                for (uint64_t i = pre; i < n; i++)
+                        d[i] = 0xff;
+                return d;
+        }
         std::vector<uint8_t> d(n);
         switch (kind) {
         case DK_RANDOM:
@@ -93,6 +122,17 @@ std::vector<uint8_t> make_data(const Json &spec)
                         b = (uint8_t) r.u64();
                 far_copies(d.data(), d.size(), r.u64());
                 break;
+        case DK_SKEW: { // symbol k with probability ~2^-k: the unrestricted Huffman tree is deeper than 15, so code-length limiting runs
+                uint64_t perm = r.u64();
+                for (auto &b : d) {
+                        uint64_t x = r.u64();
+                        int k = x ? __builtin_ctzll(x) : 63;
+                        if (k > 40)
+                                k = 40;
+                        b = (uint8_t) ((k * 37 + perm) & 0xff);
+                }
+                break;
+        }
         case DK_RUNS: {
                 uint64_t i = 0;
                 while (i < n) {
@@ -105,6 +145,14 @@ std::vector<uint8_t> make_data(const Json &spec)
         }
         }
         return d;
+}
+
+// C11: now and then the Adler-32 worst case, in a zlib-wrapped session
+void maybe_adler_worst_case(Rng &r, const std::string &focus, Json &data)
+{
+        if (!r.chance(1, focus == "C11" ? 8 : 60))
+                return;
+        data.set("k", (int) DK_ADLERMAX).set("n", (uint64_t) (11104 + r.below(50000))).set("p", (uint64_t) r.below(1 << 16));
 }
 
 Json gen_data_spec(Rng &r, uint64_t maxlen, int bias)
